@@ -406,15 +406,17 @@ impl Sys {
             }
         };
         if matches!(op, Op::Reload) && accepted {
-            // the raw bytes under annotated cells of a parsed archive are whatever the file holds
-            // there (pointer values, text offsets): taken over from the observation, they then
-            // belong to the content and must move with their cell
-            let cells: Vec<usize> = model_after.strings.keys().chain(model_after.pointers.keys()).cloned().collect();
-            for a in cells {
-                if a + 4 <= model_after.data.len() && a + 4 <= obs.bytes.len() {
-                    model_after.data[a..a + 4].copy_from_slice(&obs.bytes[a..a + 4]);
-                }
+            // the parsed archive must be the content before the call with its pending c-strings
+            // materialised — in WHICH order the pool holds them is the library's business
+            let dm = vcore::ref_bin::diff_materialised(&obs.bytes, &obs.strings, &obs.pointers, &normalised(&before_model));
+            if !dm.is_empty() {
+                return Err((format!("{}:{}", kind, dm[0].split_whitespace().next().unwrap_or("?")), format!("after {:?}: {}", op, dm.join("; ")), w));
             }
+            // the pool layout, and the raw bytes under annotated cells (pointer values, text
+            // offsets: whatever the file holds there), are taken over from the observation; from
+            // here on they belong to the content and must move with their cell
+            model_after.data = obs.bytes.clone();
+            model_after.pointers = obs.pointers.clone();
         }
         let d = arch::diff_obs(&obs, &normalised(&model_after));
         if !d.is_empty() {
